@@ -49,7 +49,7 @@ def main(argv=None) -> int:
         for p in pids:
             print(p)
         return 0
-    results, obls = runner.run(pids, verbose=a.verbose)
+    results, obls = runner.run(pids, verbose=a.verbose, prop=a.prop)
     extra = chk.extras(a.tier, seed) if hasattr(chk, "extras") else {}
     return report.finish(chk, a.tier, seed, results, obls, time.time() - t0, write=not a.only, extra=extra)
 
